@@ -13,7 +13,7 @@ Line-protocol driver of the C17 path post-processing model (header `pathops`).
   subdivide | interpn <count>
   interp vsc <k> <n>*k
   reduce <ms> <me> <rangeRatio> <k> <raw>*k cm …
-  pshort <ms> <me> <rangeRatio> <snap> <k> <u>*k cm …
+  pshort <ms> <me> <rangeRatio> <snap> <k> <u>*k cm …   -> <result> | fixed <result with the C17-F1 repair>
 answers `r <ret> out <k> <state>*k` (`r -1` for the void routines), `idx-error` if the model's checked
 indexing fails.  `cm` is the checkMotion transcript recorded by the harness on the real code: the
 model's `checkMotion` oracle is that table keyed by the pair of states (bit patterns); a pair that
@@ -182,9 +182,11 @@ def step (st : DSt) (ts : List String) : DSt × String :=
             if k ≠ us.length then (st, "bad-op") else
             let usA := us.toArray
             let E : PsEnv (St Float) := { cm := cmq, dist := dist sp, interp := interp sp }
-            match partialShortcutPath E (fun i => usA.getD i 0.0) ms me rr snap st.path with
-            | some (out, r) => (st, "r " ++ retStr r ++ " " ++ showPath out)
-            | none => (st, "idx-error")
+            let show1 (fixed : Bool) : String :=
+              match partialShortcutPath E fixed (fun i => usA.getD i 0.0) ms me rr snap st.path with
+              | some (out, r) => "r " ++ retStr r ++ " " ++ showPath out
+              | none => "idx-error"
+            (st, show1 false ++ " | fixed " ++ show1 true)
           | _, _, _, _, _, _ => (st, "bad-op")
         | _, _ => (st, "bad-op")
   | [] => (st, "bad-op")
